@@ -5,7 +5,8 @@
     fixes/C07-*.diff applied); every [= Ok ...] below says: no read outside the message mapping, no
     store outside a staging buffer (no [Crash]) and termination (no [OutOfFuel]). *)
 From Qv Require Import Common.Bytes Gen.GenQrdata Model.Mime Model.QrData Spec.SmtpDataSpec
-  Proofs.QrNeedRecodeProofs Proofs.QrPlainSpecProofs Proofs.QrQpDecodeProofs Proofs.QrQpLegalProofs Proofs.QrQpTopProofs Proofs.QrWrapLineProofs Proofs.QrPartDecisionProofs.
+  Proofs.QrNeedRecodeProofs Proofs.QrPlainSpecProofs Proofs.QrQpDecodeProofs Proofs.QrQpLegalProofs Proofs.QrQpTopProofs Proofs.QrWrapLineProofs Proofs.QrPartDecisionProofs
+  Proofs.MimeTotalProofs Proofs.QrHeaderTotalProofs Proofs.QrSendQpTotalProofs Proofs.QrLegalProofs.
 
 (** need_recode() decides exactly what the property needs: the message goes the recoding way iff it has
     an octet that is NUL or above 127 while 8BITMIME was not announced, or a line of more than 998 octets
@@ -16,6 +17,29 @@ Theorem C06_recode_decision : forall (m : bytes) (ext8 : bool),
     takes_qp ext8 fl = must_recode ext8 m.
 Proof. exact need_recode_decides. Qed.
 Print Assumptions C06_recode_decision.
+
+(** "Qremote always finishes and never reads outside the message": for EVERY message (any octets, any
+    line ends, any header, multipart of any shape and nesting), every HELO name and either 8BITMIME
+    setting, send_data returns on whichever path it takes — plain, or the recoding path through
+    qp_header (header scan, Content-Transfer-Encoding replacement), wrap_header / wrap_line, the multipart
+    walk of send_qp with its recursion into the parts, and the mime.c functions (is_multipart,
+    skipwhitespace, mime_token, mime_param, getfieldlen, find_boundary).  [Ok] means: no [Crash] — no read
+    outside the mapping of the message, no store outside sendbuf[1205/1048/1280], none of the situations
+    the C code excludes by assert() — and no [OutOfFuel] with the fuel of the model, which is linear in
+    the message length (length + 1 for the recursion over parts and for each loop over a window of
+    that length, 2 x length + 2 / 6 x length + 6 for the flattened nested loops).  The outcome is the
+    completed transfer or a failure reported through net_conn_shutdown() ([Die]). *)
+Theorem C06_total : forall (m helo : bytes) (ext8 : bool),
+  exists fl q r, send_data m helo ext8 = Ok (fl, q, r).
+Proof. exact send_data_total. Qed.
+Print Assumptions C06_total.
+
+(** the same for the recoder alone, on any window of the message (any MIME part) and with any fuel above
+    the window length *)
+Theorem C06_send_qp_total : forall (m helo : bytes) (ext8 : bool) (fuel b len : nat) (st : St),
+  b + len <= length m -> len < fuel -> exists r, send_qp fuel m helo ext8 b len st = Ok r.
+Proof. exact send_qp_total. Qed.
+Print Assumptions C06_send_qp_total.
 
 (** send_qp() decides for every MIME part with `nr & nr_match` whether the part goes through the recoder
     (folding of over-long header lines, quoted-printable) or is sent as it is.  With the masks of the C
@@ -41,6 +65,47 @@ Proof.
   apply plain_data_legal. exact H.
 Qed.
 Print Assumptions C06_plain.
+
+(** "Everything Qremote writes between the 354 and the final reply is legal SMTP data", on whichever
+    path: for EVERY message made of octets (any line ends, 8-bit octets, over-long header and body lines,
+    with or without Content-Transfer-Encoding field, header only, body only, multipart of any shape and
+    nesting, with missing, repeated or terminal boundaries, discarded preamble / epilogue), every HELO name
+    that is a legal host name for the generated field, and either 8BITMIME setting.
+    send_data returns, and
+    - either the transfer is completed: the octets written are legal data (CRLF-terminated lines without
+      other CR/LF, none over 998 octets not counting the transparency dot, 7 bit unless 8BITMIME, no lone
+      dot) followed by the terminating dot line.  On the recoding path that is: the header lines folded by
+      wrap_header / wrap_line, the replaced or added Content-Transfer-Encoding field, the lines of
+      recodeheader(), the body as quoted-printable or as it is, and for a multipart the delimiter lines, the
+      texts for a discarded preamble / epilogue and every part, recursively, each either as it is or
+      through the same recoder;
+    - or Qremote gave up through net_conn_shutdown() (8-bit octets in a header, a broken Content-Type, of the
+      message or of a part): then it has written complete legal lines and possibly the beginning of
+      one that could still be completed legally. *)
+Theorem C06_legal : forall (m helo : bytes) (ext8 : bool),
+  line_clean helo /\ seven_bit helo /\ length helo <= 255 ->
+  Forall (fun c => (c < 256)%N) m ->
+  exists fl q r, send_data m helo ext8 = Ok (fl, q, r) /\
+    match r with
+    | Done _ st => exists d, concat (rev (out st)) = d ++ TERMINATOR /\ legal_data ext8 d
+    | Die _ st => exists d t, concat (rev (out st)) = d ++ t /\ legal_data ext8 d /\ legal_line ext8 t
+    end.
+Proof. exact send_data_legal. Qed.
+Print Assumptions C06_legal.
+
+(** when no header field of the message is accepted by is_multipart() as a multipart Content-Type (no
+    multipart walk), giving up means that nothing at all was written *)
+Theorem C06_legal_nomulti : forall (m helo : bytes) (ext8 : bool),
+  line_clean helo /\ seven_bit helo /\ length helo <= 255 ->
+  Forall (fun c => (c < 256)%N) m ->
+  (forall ls ll bs bl, is_multipart m ls ll <> Ok (MpYes bs bl)) ->
+  exists fl q r, send_data m helo ext8 = Ok (fl, q, r) /\
+    match r with
+    | Done _ st => exists d, concat (rev (out st)) = d ++ TERMINATOR /\ legal_data ext8 d
+    | Die _ st => concat (rev (out st)) = []
+    end.
+Proof. exact send_data_legal_partial. Qed.
+Print Assumptions C06_legal_nomulti.
 
 (** recode_qp(), the quoted-printable recoder, on any window (body or MIME part) of any message made of
     octets: it terminates, reads nothing outside the window, stays inside sendbuf[1280], and what it
